@@ -39,8 +39,18 @@ TEMPLATES = {
                    ("end", "END_GROUP", "g")],
     "semis": [("asg", "a", "1"), ("semi",), ("asg", "b", "2"), ("semi",), ("asg", "c", "3"), ("semi",)],
     "five": [("asg", "a", "1"), ("asg", "b", "2"), ("asg", "c", "3"), ("asg", "d", "4"), ("asg", "e", "0"), ("END",)],
+    # comments that contain '=' signs and line ends, before, between and directly after the statements
+    "cmtafter": [("asg", "a", "1"), ("cmt", "/* x = y */"), ("asg", "b", "2"), ("cmt", "/* =\n= */"), ("asg", "c", "3"),
+                 ("cmt", "/* z = */"), ("END",)],
+    "cmtbefore": [("cmt", "/* k = v\n */"), ("asg", "a", "1"), ("asg", "b", "2"), ("cmt", "/*=*/"), ("begin", "GROUP", "g"),
+                  ("asg", "c", "3"), ("cmt", "/* = */"), ("end", "END_GROUP")],
+    # a multi-line quoted string before the gaps (a line end inside a token)
+    "multiline": [("asg", "a", '"p = q\nr"'), ("asg", "b", "2"), ("asg", "c", "3"), ("END",)],
+    # ... that ends a line in a dash: the default loader's dash-continuation removal joins the lines (finding D50)
+    "dash": [("asg", "a", '"x-\ny"'), ("asg", "b", "2"), ("asg", "c", "3"), ("END",)],
 }
-EXPECT_VALUES = {"1": 1, "2": 2, "3": 3, "0": 0, "4": 4, '"q"': "q", "(1,2)": [1, 2], "v": "v"}
+EXPECT_VALUES = {"1": 1, "2": 2, "3": 3, "0": 0, "4": 4, '"q"': "q", "(1,2)": [1, 2], "v": "v", '"p = q\nr"': "p = q r",
+                 '"x-\ny"': "xy"}
 
 
 class Gaps(Harness):
@@ -57,6 +67,13 @@ class Gaps(Harness):
         return ("template %s: every subset of its assignments with the value removed x %s; loader %s" % (
             self.template, ("every layout in which each of the %d inter-token gaps is a blank, TAB, CR or LF" % self.ngaps())
             if self.dialect == "Omni" else "one fixed layout", self.dialect))
+
+    def known(self, L, inp):
+        """D50: line numbers are computed on the text AFTER the default loader's dash-continuation removal"""
+        if self.template == "dash" and self.dialect == "Omni":
+            rm = list(inp["rm"])
+            return (("D50", (not rm[0]) and (rm[1] or rm[2])),)
+        return ()
 
     def tokens(self, rm):
         toks = []          # (text, statement index or None, is_equals)
@@ -77,6 +94,8 @@ class Gaps(Harness):
                 toks.append(("END", None, False))
             elif st[0] == "semi":
                 toks.append((";", None, False))
+            elif st[0] == "cmt":
+                toks.append((st[1], None, False))
         return toks
 
     def nasg(self):
@@ -93,7 +112,8 @@ class Gaps(Harness):
             # the strict parsers only have to raise: the layout is not the subject there, and a
             # symbolic blank/newline would fork inside PVLGrammar.char_allowed for every gap
             return {"rm": rm, "ws": "".join(" \n"[(i * 7 + len(self.template)) % 2] for i in range(k))}
-        ws = SymStr([ctx.fresh_char("w%d" % i, ((9, 10), (13, 13), (32, 32))) for i in range(k)])
+        per = 2 if getattr(self, "layout", "one") == "two" else 1      # "two": CR-LF pairs become possible
+        ws = SymStr([ctx.fresh_char("w%d" % i, ((9, 10), (13, 13), (32, 32))) for i in range(k * per)])
         return {"rm": rm, "ws": ws}
 
     def prop_fn(self, L, inp):
@@ -104,15 +124,16 @@ class Gaps(Harness):
         text = ""
         eq_line = {}                 # assignment index -> 1-based line of its '='
         nl_before = 0                # int or SymInt: newlines so far
+        per = len(wcs) // max(1, len(toks) - 1) if len(toks) > 1 else 1
         for i, (t, ai, is_eq) in enumerate(toks):
-            if i:
-                w = wcs[i - 1]
+            for w in (wcs[(i - 1) * per:i * per] if i else []):
                 text = text + w
                 isnl = (w == "\n")
                 nl_before = nl_before + (int(isnl) if isinstance(isnl, bool) else mkint(z3.If(B(isnl), 1, 0)))
             if is_eq:
                 eq_line[ai] = nl_before + 1
             text = text + t
+            nl_before = nl_before + t.count("\n")          # a line end inside a comment or a quoted string
         # expected tree
         def build(sts, pos):
             out = []
@@ -122,7 +143,10 @@ class Gaps(Harness):
                 if st[0] == "asg":
                     ai = pos[1]
                     pos[1] += 1
-                    out.append((st[1], ("EMPTY", eq_line[ai]) if rm[ai] else EXPECT_VALUES[st[2]]))
+                    ev = EXPECT_VALUES[st[2]]
+                    if self.dialect == "PVL" and st[2].startswith('"'):
+                        ev = st[2][1:-1]           # the PVL decoder keeps quoted text as written (no folding)
+                    out.append((st[1], ("EMPTY", eq_line[ai]) if rm[ai] else ev))
                 elif st[0] == "begin":
                     out.append((st[2], ("BLOCK", st[1], build(sts, pos))))
                 elif st[0] == "end":
@@ -191,6 +215,8 @@ def obligations(tier):
     for t in TEMPLATES:
         for d in ("Omni", "PVL", "ODL", "PDS3"):
             obs.append(Gaps(template=t, dialect=d))
+    for t in ("top3end", "group", "multiline", "cmtafter") + (() if tier == "quick" else ("nested", "semis", "values", "cmtbefore")):
+        obs.append(Gaps(template=t, dialect="Omni", layout="two"))
     return obs
 
 
